@@ -112,6 +112,7 @@ func Stdout() string               { return "" }
 func Symbolic() bool               { return false }
 func Event() int                   { return 0 }
 func Steps() int                   { return 0 }
+func MoreFuel(n int)               {}
 
 // Cost runs f and returns a deterministic measure of the work it did: under
 // the engine the number of SSA instructions executed, natively the number of
